@@ -58,8 +58,15 @@ bool Properties::addLink( const std::string& link, const std::string& from)
    auto  dest_entry = mProperties.findEntry( from, mSeparator);
 
 
-   return dest_entry.first && mProperties.addProperty( link, from,
-      dest_entry.second, mSeparator);
+   if (!dest_entry.first)
+      return false;
+
+   // a link to a link points to the entry (value or map) that link points to
+   auto  dest = dest_entry.second;
+   while (dest->second->entryType() == detail::PropertyEntry::Types::link)
+      dest = static_cast< const detail::PropertyLink*>( dest->second)->iterator();
+
+   return mProperties.addProperty( link, from, dest, mSeparator);
 } // Properties::addLink
 
 
